@@ -347,7 +347,8 @@ do_shared(struct work *k, int it)
     struct lyd_node *m = NULL, *priv = NULL, *n;
     char doc[2048];
 
-    dg_print(k, w->shared, (it % 3 == 0) ? LYD_XML : ((it % 3 == 1) ? LYD_JSON : LYD_LYB), LYD_PRINT_SHRINK);
+    /* the three formats at the same time in different threads (the first LYB print of a module fills its hash cache) */
+    dg_print(k, w->shared, ((it + k->id) % 3 == 0) ? LYD_XML : (((it + k->id) % 3 == 1) ? LYD_JSON : LYD_LYB), LYD_PRINT_SHRINK);
     dgi(k, lyd_find_xpath(w->shared, "/vq:c/li[k='b']/v | /vq:c/l[.='2'] | /vq:c/*[contains(., '2001')] | /vq:c/bi[.='alpha gamma']", &set));
     dg_set(k, set);
     ly_set_free(set, NULL);
